@@ -271,12 +271,17 @@ func padForm(t *Term) (padInfo, bool) {
 	return padInfo{}, false
 }
 
-// linearIn: t is built from constants, the symbol sym, +, - and at most one comparison at the top.
-func linearIn(t *Term, sym string) bool {
+// linearIn: t is built from constants, the symbols syms, +, - and at most one comparison at the top.
+func linearIn(t *Term, syms ...string) bool {
 	var lin func(x *Term) bool
 	lin = func(x *Term) bool {
+		for _, sym := range syms {
+			if x.String() == sym {
+				return true
+			}
+		}
 		switch {
-		case x.String() == sym, x.IsConst():
+		case x.IsConst():
 			return true
 		case x.Op == "conv" && len(x.Args) == 1:
 			return lin(x.Args[0])
@@ -550,4 +555,36 @@ func init() {
 		thorough: []Config{CfgNative, Cfg386},
 		run:      runC17,
 	})
+}
+
+// shortBy: over the grid W in 0..12, L in 0..W+8 the linear terms behave like "L < W" (cond, may be nil) and
+// like the amount W - L whenever L < W (cnt, may be nil). Terms are linear with small integer coefficients,
+// so agreement on the grid (which follows the boundary L = W over thirteen points) settles all values.
+func shortBy(cond, cnt *Term, L, W string) bool {
+	return shortByPol(cond, cnt, L, W, true) || (cond != nil && shortByPol(cond, cnt, L, W, false))
+}
+
+// shortByPol: pol=false reads cond as the negated test (L >= W).
+func shortByPol(cond, cnt *Term, L, W string, pol bool) bool {
+	if (cond != nil && !linearIn(cond, L, W)) || (cnt != nil && !linearIn(cnt, L, W)) {
+		return false
+	}
+	for w := int64(0); w <= 12; w++ {
+		for l := int64(0); l <= w+8; l++ {
+			env := map[string]int64{L: l, W: w}
+			if cond != nil {
+				cv, ok := evalEnv(cond, env)
+				if !ok || (cv != 0) != ((l < w) == pol) {
+					return false
+				}
+			}
+			if cnt != nil && l < w {
+				n, ok := evalEnv(cnt, env)
+				if !ok || n != w-l {
+					return false
+				}
+			}
+		}
+	}
+	return true
 }
